@@ -462,6 +462,13 @@ CallResult perform(Subject& s, const gen::Program& prog, const Op& op, bool* mus
         size_t sz = sizes[size_t(op.a[2]) % 12];
         if (!s.code.is_label_valid(a) || !s.code.is_label_valid(b) || (sz != 0 && sz != 1 && sz != 2 && sz != 4 && sz != 8)) *must_fail_out = true;
         if (sz != 0 && sz != 1 && sz != 2 && sz != 4 && sz != 8) s.last_must_fail_other = true;
+        // a distance that is known now (both labels bound in one section) and fits the field neither as signed nor as
+        // unsigned value cannot be stored: silently truncated data is not "a correct instruction"
+        if (s.emitter_kind == 0 && (sz == 1 || sz == 2 || sz == 4) && s.code.is_label_valid(a) && s.code.is_label_valid(b) && s.code.is_label_bound(a) && s.code.is_label_bound(b) &&
+            s.code.label_entry_of(a).section_id() == s.code.label_entry_of(b).section_id()) {
+          int64_t d = int64_t(s.code.label_entry_of(a).offset()) - int64_t(s.code.label_entry_of(b).offset()), lim = int64_t(1) << (8 * sz);
+          if (d < -(lim >> 1) || d >= lim) { *must_fail_out = true; s.last_must_fail_other = true; sim::count("c14.probe.label_delta_does_not_fit"); }
+        }
         r.err = e.embed_label_delta(a, b, sz);
         break;
       }
